@@ -415,3 +415,58 @@ fn main() {{}}
 
 
 UNITS.append(VUnit("c10_assignment", ["C10", "C03"], "const / type test of `=` and `modify` against the previous declaration", build_assignment_tail))
+
+
+# =====================================================================================================================
+# Parser::number_loop, middle: `from` bounds must be numeric (C02 / C03)
+NB_SPEC = r"""
+pub uninterp spec fn spec_is_numeric(t: TypeLayout, allow_byte: bool) -> bool;
+pub uninterp spec fn spec_is_float(t: TypeLayout) -> bool;
+pub uninterp spec fn stripped(t: TypeLayout, include_optional: bool) -> TypeLayout;
+impl TypeLayout {
+    #[verifier::external_body] pub fn is_numeric(&self, allow_byte: bool) -> (r: bool) ensures r == spec_is_numeric(*self, allow_byte) { unimplemented!() }
+    #[verifier::external_body] pub fn is_float(&self) -> (r: bool) ensures r == spec_is_float(*self) { unimplemented!() }
+    #[verifier::external_body] pub fn disregard_distractors(&self, include_optional: bool) -> (r: &TypeLayout) ensures *r == stripped(*self, include_optional) { unimplemented!() }
+}
+"""
+
+
+def build_number_bounds(repo):
+    src = Source(repo)
+    log = []
+    f = src.fn(NL, "number_loop", "impl Parser")
+    frag = slice_from(f["body"], "if ! start_ty . is_numeric (")
+    p_end = Pat("let name_is_collision =")
+    end = None
+    for i in range(len(frag)):
+        if p_end.match_at(frag, i):
+            end = i; break
+    if end is None:
+        raise Undecided("number_loop: end of the bounds checks (`let name_is_collision =`) not found")
+    frag = frag[:end]
+    b = translate(frag, [
+        Rule("R3", "return Err ( vec ! [ new_err ( $$a ) ] ) ;", "return Err ( VErr ) ;", why="diagnostic dropped (that a diagnostic IS returned is kept)"),
+        Rule("R10", "number_loop_scope . consume ( ) ;", "", why="scope handle: not part of the bounds checks"),
+        Rule("R1", "let span = if start_is_float { val_start_span } else { val_end_span } ;", "", why="span only feeds the diagnostic"),
+    ], log, "Parser::number_loop[bounds]")
+    check_closed(b, "number_loop[bounds]")
+    gen = header(log, f"{NL}: Parser::number_loop, the numeric-bounds checks (from `if !start_ty.is_numeric(..)` up to `let name_is_collision`)") + prelude("parser.rs") + NB_SPEC + f"""
+//@ OBL C02.number_loop.bounds
+pub fn number_loop_bounds(start_ty: TypeLayout, end_ty: TypeLayout, step: Option<(Value, Span)>) -> (r: Result<(), VErr>)
+    ensures
+        // a `from` loop is accepted only with numeric start AND end bounds (the run-time comparison `counter < end` needs numbers)
+        r is Ok ==> spec_is_numeric(start_ty, true) && spec_is_numeric(end_ty, true),
+        // mixing a float bound with a non-float bound needs an explicit step
+        r is Ok ==> (spec_is_float(start_ty) != spec_is_float(end_ty) ==> step is Some),
+{{
+{render(b, 1)}
+    Ok(())
+}}
+}} // verus!
+fn main() {{}}
+"""
+    return gen, [Obl("C02.number_loop.bounds", ["C02", "C03"], fn="Parser::number_loop[bounds]", desc="Parser::number_loop: both bounds must be numeric; a float bound mixed with a non-float bound needs an explicit step")], log
+
+
+UNITS.append(VUnit("c02_number_bounds", ["C02", "C03"], "from-loop bounds must be numeric", build_number_bounds))
+UNITS[-1].assumes = ["fragment: the checks between the operator-table test of the step and the counter-name handling; start_ty / end_ty are the types Value::for_type delivered for the bounds"]
